@@ -272,7 +272,7 @@ var c10Controls = []Control{
 	{Name: "incomplete-ignores-eof", Rule: "R10a", WantKey: "posErr#Incomplete", File: "syntax/parser.go",
 		Mutate: ctlReplace("Parser.posErr", "p.tok == _EOF && p.Incomplete()", "p.tok == _EOF", 0)},
 	{Name: "comment-literal-left-open", Rule: "R10c", WantKey: "next#newLit", File: "syntax/lexer.go",
-		Mutate: ctlReplaceAnywhere("\t\t\t} else {\n\t\t\t\tp.litBs = nil\n\t\t\t}\n\t\t\tp.next()", "\t\t\t}\n\t\t\tp.next()")},
+		Mutate: ctlReplaceAnywhere("\t\t\t} else {\n\t\t\t\tp.litBs = nil\n\t\t\t}\n\t\t\t// Read the token after the comment", "\t\t\t}\n\t\t\t// Read the token after the comment")},
 	{Name: "offs-in-retry-loop", Rule: "R10d", WantKey: "fill#offs", File: "syntax/lexer.go",
 		Mutate: ctlReplaceAnywhere("\tp.offs += int64(p.bsp)\n\tleft := len(p.bs) - int(p.bsp)\n\tcopy(p.readBuf[:left], p.readBuf[p.bsp:])\nreadAgain:\n", "\tleft := len(p.bs) - int(p.bsp)\n\tcopy(p.readBuf[:left], p.readBuf[p.bsp:])\nreadAgain:\n\tp.offs += int64(p.bsp)\n")},
 	{Name: "stmts-openNodes-leak", Rule: "R10b", WantKey: "stmts#openNodes++", File: "syntax/parser.go",
